@@ -178,6 +178,34 @@ def run_config(cfg, res):
       if not one(proto.cut(stream, pos), 'random@%s' % pos):
         return
 
+  # long names: a datapoint line may be up to 16384 bytes (LineOnlyReceiver.MAX_LENGTH), a pickle frame up to 1 MiB
+  if cfg['proto'] in ('line', 'pickle') and cfg['shard'] == 0:
+    for L in ((300, 5000, 16000) if cfg['tier'] == 'quick' else (300, 1000, 5000, 9000, 16000, 16300)):
+      for alpha in ('abcxyz.', 'é中.a'):
+        name = ''.join(r.choice(alpha) for _ in range(L)).strip('.') or 'a'
+        while len(name.encode('utf-8')) > L:
+          name = name[:-1]
+        name = name.replace('..', '.a')
+        pts = [('short.before', '10', '1.5'), (name, '1700000000', '2.5'), (name + 'x'[:1 if L < 16000 else 0], '1700000001', '-3'), ('short.after', '20', '4')]
+        exp = [(n, (float(t), float(v))) for n, t, v in pts]
+        if cfg['proto'] == 'line':
+          stream = b''.join(codec.encode_line(n, v, t, None, b'\n') for n, t, v in pts)
+          cls = P.MetricLineReceiver
+        else:
+          stream = codec.encode_pickle_frame([(n, (float(t), float(v))) for n, t, v in pts[:2]], protocol=2) + \
+            codec.encode_pickle_frame([(n, (float(t), float(v))) for n, t, v in pts[2:]], protocol=r.randrange(0, 6))
+          cls = P.MetricPickleReceiver
+        n_ = len(stream)
+        for segs, desc in [([stream], 'whole'), ([stream[i:i + 1000] for i in range(0, n_, 1000)], 'chunks1000'), ([stream[i:i + 7] for i in range(0, n_, 7)], 'chunks7')] + \
+                          [(proto.cut(stream, sorted(set(r.randrange(1, n_) for _ in range(6)))), 'random6') for _ in range(10)]:
+          o = proto.tcp_session(cls, segs, rec)
+          res.count('segmentations_executed')
+          res.count('long_name_sessions')
+          why = ('exception %r' % o['exc']) if o['exc'] else ('connection closed' if o['disconnecting'] else proto.same_points(o['got'], exp))
+          if why:
+            report('mismatch/long-name', why, stream, exp, '%s, name of %d bytes' % (desc, len(name.encode('utf-8'))), o['got'])
+            break
+        res.case(('long', cfg['proto'], L, alpha), True)
   for case in range(ncases):
     npoints = r.choice([1, 2, 3, 5, 8, 13, 25, 40]) if case % 4 else r.choice([1, 2])
     pts = []
